@@ -52,7 +52,7 @@ func renderLogLine(ln logLine, pos int, variant int) string {
 			return head + fmt.Sprintf(`apparmor="DENIED" operation="open" class="file" profile="%s" name="%s" pid=%d comm="%s" requested_mask="r" denied_mask="r" fsuid=1000 ouid=1000`, prof, name, 2000+pos, marker)
 		}
 		targets := []int{0, 4096, 8192, 65536, 4095, 4097, 8191, 65535, 1<<20 + 1, 0, 4096, 3 << 20} // and beyond any fixed cap a reader may set (1 MiB, 2 MiB)
-		if t := targets[variant%len(targets)]; t > 0 { // the same in every line of one log (duplicates must stay duplicates)
+		if t := targets[variant%len(targets)]; t > 0 {                                               // the same in every line of one log (duplicates must stay duplicates)
 			base := len(mk(0))
 			if t > base {
 				return mk(t - base)
